@@ -1,7 +1,7 @@
 #!/usr/bin/env python3
 """Bookkeeping for seeded breaking changes (never part of a registered check).
 
-  seedtool.py import <prop> <n>     copy a delivered, verified seed from /tmp/seeds/<prop>/<n> to seeded/<prop>-<n>/
+  seedtool.py import <prop> <n> [root [as_n]]   copy a delivered, verified seed from <root=/tmp/seeds>/<prop>/<n> to seeded/<prop>-<as_n or n>/
   seedtool.py run [id ...]          apply each seeded patch to /repo, run the property's quick check, undo; write seeded/RESULTS.md
 """
 import json, os, shutil, subprocess, sys, re
@@ -9,9 +9,9 @@ HERE = os.path.dirname(os.path.abspath(__file__))
 SEEDED = os.path.join(HERE, 'seeded')
 
 
-def imp(prop, n):
-    src = '/tmp/seeds/%s/%s' % (prop, n)
-    dst = os.path.join(SEEDED, '%s-%s' % (prop, n))
+def imp(prop, n, root='/tmp/seeds', as_n=None):
+    src = '%s/%s/%s' % (root, prop, n)
+    dst = os.path.join(SEEDED, '%s-%s' % (prop, as_n or n))
     log = open(os.path.join(src, 'verify.log')).read()
     m = re.search(r"RESULT demo_patched_exit=(\d+) demo_clean_exit=(\d+) ctest='(\d+)% tests passed' bu_errors=(\d+)", log)
     if not m:
@@ -71,6 +71,6 @@ def run(ids):
 
 if __name__ == '__main__':
     if sys.argv[1] == 'import':
-        imp(sys.argv[2], sys.argv[3])
+        imp(*sys.argv[2:])
     else:
         run(sys.argv[2:])
